@@ -136,6 +136,16 @@ fn main() {
         }
         return;
     }
+    if args.len() >= 2 && args[1] == "--extreme-words" {
+        // the 7-byte windows with extreme rolling-hash values used by C01/C03/C13
+        let want = gen::extreme_roll_values();
+        let have = gen::extreme_words();
+        for (val, w) in &have {
+            println!("rolling hash {:#010x}  window {}", val, util::hex(w));
+        }
+        println!("{} of {} values reached", have.len(), want.len());
+        return;
+    }
     if args.len() < 2 {
         eprintln!("usage: replay <PROPERTY-ID> <seed> <budget-seconds> | replay --selftest [seconds] [seed]");
         std::process::exit(2);
